@@ -51,14 +51,14 @@ _ERASE = re.compile(
     r"borrow::Borrow::borrow|borrow::BorrowMut::borrow_mut|clone::Clone::clone|convert::Into::into|convert::From::from|"
     r"option::Option::<T>::(as_ref|as_mut|cloned|copied|unwrap|expect|as_deref)|option::Option::<&T>::(cloned|copied)|"
     r"option::Option::<&mut T>::(cloned|copied)|"
-    r"result::Result::<T, E>::(unwrap|expect|as_ref|as_mut)|"
+    r"result::Result::<T, E>::(unwrap|expect|as_ref|as_mut)|result::Result::<&T, E>::(copied|cloned)|result::Result::<&mut T, E>::(copied|cloned)|"
     r"sync::(RwLock|Mutex|poison::rwlock::RwLock|poison::mutex::Mutex)::<T>::(read|write|lock)|"
     r"sync::Arc::<T(, A)?>::(as_ref|clone)|slice::<impl \[T\]>::iter|"
     r"iter::(IntoIterator::into_iter|Iterator::copied|Iterator::cloned))$")
 
 # tag transfer tables for std calls: path regex -> function(tag variant of arg0) -> variant of result
 _PRESERVE = re.compile(
-    r"(result::Result::<T, E>::(map_err|map|as_ref|as_mut|inspect_err|or_else)|ErrorContextExt::context|"
+    r"(result::Result::<T, E>::(map_err|map|as_ref|as_mut|inspect_err|or_else)|result::Result::<&(mut )?T, E>::(copied|cloned)|ErrorContextExt::context|"
     r"option::Option::<T>::(map|as_ref|as_mut|cloned|copied|inspect)|clone::Clone::clone)$")
 # combinators that call their closure at most once, depending on the variant of the receiver:
 #   name -> (variants that trigger the closure, result when skipped, result after the closure)
@@ -965,6 +965,20 @@ class EGraph:
                 if r is None and self._is_symbolic_arg(inst, rv["a"]["p"]["l"]):
                     return (inst, {"l": rv["a"]["p"]["l"], "proj": ["deref"]})
                 return r
+            if rv["k"] == "use" and rv["a"]["k"] in ("copy", "move") and len(rv["a"]["p"]["proj"]) == 2 \
+                    and rv["a"]["p"]["proj"][0] == "deref" and isinstance(rv["a"]["p"]["proj"][1], dict) and "f" in rv["a"]["p"]["proj"][1] \
+                    and rv["a"]["p"]["l"] == 1 and inst.body.get("kind") == "Closure":
+                # a reference captured by a closure (`|w| w.complete(&outcome)`): read back out of the closure's environment; it points
+                # where the captured operand pointed when the closure was created
+                site = self._closure_creation(inst)
+                if site is not None:
+                    pinst, crv = site
+                    fi = rv["a"]["p"]["proj"][1]["f"]
+                    if fi < len(crv["fields"]):
+                        co = crv["fields"][fi]
+                        if co["k"] in ("copy", "move") and not co["p"]["proj"]:
+                            return self._pointee(pinst, co["p"]["l"])
+                return None
             if rv["k"] == "use" and rv["a"]["k"] in ("copy", "move") and len(rv["a"]["p"]["proj"]) == 1 \
                     and isinstance(rv["a"]["p"]["proj"][0], dict) and "f" in rv["a"]["p"]["proj"][0]:
                 # a reference read back out of a field of a locally built aggregate (tuple patterns)
